@@ -134,7 +134,7 @@ def inBodyStart (c : Cfg) (s : State) (n0 : Name) (a : Attrs) (selfClosing : Boo
     else if !s.framesetOk then .ignore s
     else
       -- pop all the nodes from the current node up to, but not including, the root html element
-      let s := s.onTree (fun t => { t with stack := t.stack.drop (t.stack.length - 1) })
+      let s := s.onTree (·.popToRoot)
       .ok { s.insertHtml n a with mode := .inFrameset }
   else if n.isIn blockStartNames then .ok ((s.closePInButtonScope c).insertHtml n a)
   else if n.isIn headingNames then
@@ -683,7 +683,7 @@ def afterHead (c : Cfg) (s : State) (t : Token) : Res :=
     else if n.isIn headStartNames then
       -- push the node pointed to by the head element pointer, process using "in head", remove it
       match s.headPtr with
-      | some h => (inHead c (s.onTree (fun t => { t with stack := h :: t.stack })) t).mapState (·.removeFromStack h.id)
+      | some h => (inHead c (s.onTree (·.pushEl h)) t).mapState (·.removeFromStack h.id)
       | none => inHead c s t     -- not reachable: the pointer is set before this mode is entered
     else if n == .head then .ignore s
     else anythingElse
